@@ -76,6 +76,7 @@ def run(repo, chk):
     rule_e(chk, e)
     rule_f(chk, d, t)
     rule_g(repo, chk)
+    rule_h(repo, chk, d)
 
 
 def rule_a_b(chk, f, ev):
@@ -446,3 +447,27 @@ def rule_g(repo, chk):
         chk.ob('g', upd.ref, 'a non-None plain result marks the value as having a result (None does not)', okr, loc(upd, upd.node), discr='result-flag')
         par = [n for n in gu.nodes if n.kind == 'stmt' and f'{o}.parent' in pat.stores_attr(n.ast, 'errors')]
         chk.ob('g', upd.ref, 'flags are propagated to the parent value', bool(par), loc(upd, upd.node), discr='parent-flags', nontrivial=False)
+
+
+def rule_h(repo, chk, d):
+    """No result of an earlier handler is seen again in a later iteration of the handler loop."""
+    from .common import dispatcher_loop
+    chk.rule('C04.h', 'the result variable examined after a handler ran is (re)bound in the same iteration on every path, including the paths on which the '
+                      'handler call raised and was turned into stop() (no stale result of the previous handler is stored or scheduled again)')
+    loop, _v, sites, _helper = dispatcher_loop(repo, d)
+    g = d.cfg()
+    for s_ in sites:
+        if not (s_.kind == 'stmt' and isinstance(s_.ast, ast.Assign) and isinstance(s_.ast.targets[0], ast.Name)):
+            continue
+        var = s_.ast.targets[0].id
+        defs = {n for n in g.nodes if var in Q.node_defs(n) and ('loop', loop.ast) in n.ctx}
+        uses = [n for n in g.nodes if ('loop', loop.ast) in n.ctx and n.ast is not None and n.kind in ('stmt', 'test') and n not in defs and
+                var in Q.names_used(n.ast if n.kind != 'with' else n.ast.context_expr)]
+        # a definition counts only on its normal out-edges (when the right-hand side raises nothing was bound)
+        body = [e.dst for e in loop.succ if e.kind == 'T']
+        seen, par = Q.search(body, weak=True, avoid_edge=lambda e: e.src in defs and e.kind != 'x', stop=lambda n: n is loop)
+        bad = [u for u in uses if u in seen and not (u in body and False)]
+        # a body start that is itself a definition was "entered": its normal successors are cut by avoid_edge, so nothing more to do
+        p = Q.path_to(par, bad[0]) if bad else None
+        chk.ob('h', d.ref, f'`{var}` holds the result of the handler that has just run whenever it is examined', not bad, loc(d, (bad[0] if bad else s_).ast),
+               path=pat.path_lines(p) if p else None, discr=f'no-stale-result:{var}')
